@@ -39,6 +39,11 @@ CLAIMED = {
 		text='Partial: proved are the exception contract of Nodes.ancestor (an absent tag is NodeNotFound) and, for every memoised query (parent, ancestor, children, expand, values), the derived obligation that the memo key determines all inputs the cached factory closes over (so an answer cannot depend on what was asked before). The bijection pluck ∘ full_pathfy, document-order ids, agreement of parent/children/siblings/ancestor/expand with the tree and query-order independence of the resolved class are a bounded twin over random trees (never counted as proved): the code recurses over third-party tree objects and iterates dicts.',
 		note='Memoize.get transparency read from memo2.py; regex de-indexing and path element access assumed; most of the statement is bounded',
 		ref='DESIGN.md §4 C10'),
+	'C12': dict(
+		level='proof',
+		text='Closed obligations decided by evaluation on every run: parsing data/syntax/gram.lark with the built-in rules yields the built-in rules, and compiling gram.lark / py_gram.lark yields the checked-in rule modules. Proved for all inputs: Pattern.make reads exactly the three textual forms (quoted string with the four control-code escapes, slashed regexp, symbol) and refuses anything else; Prettier._pretty_pattern / _deco_repeat write those forms; reading a printed pattern gives the pattern back (lemma over the two contracts); rule names carry the unwrap marker exactly when the rule text does (ASTSerializer._for_rule_name) and Rules.unwrap_by / __getitem__ find a pattern under that name. The recursive rebuild, the group printer and the parsing engine are a labelled bounded twin (print -> parse -> rebuild on shipped and generated grammars; compiled vs original rules on generated sentences).',
+		note='re.fullmatch as an uninterpreted predicate; enum members by value; recursion over tuple / pattern trees outside the VC subset; rule modules compared as code without docstrings',
+		ref='DESIGN.md §4 C12, §9'),
 	'C13': dict(
 		level='proof',
 		text='Proved per token class against Python\'s lexical rules on the supported ASCII subset: names and decimal numbers are maximal runs; a single-quoted (plain/r/f, either quote) literal ends at the first quote preceded by an even number of backslashes; every token\'s text is the source slice and its span the standard (line, column) of both ends; bracket depth and block bookkeeping emit exactly (new depth - old depth) block markers, none inside brackets, under the consistent-layout precondition. The operator table is a closed check against CPython\'s table. Whole-sequence equality with CPython\'s tokenize, triple-quoted literals, comments/post-filter and the layout metamorphism are a bounded twin (never counted as proved).',
